@@ -858,11 +858,16 @@ pub fn cost_case(family: &str, n: usize, seed: u64) -> Result<(Cfg, Vec<Vec<u8>>
             }
             let filler = (b'0'..=b'9').chain(0x80..=0xFFu8).find(|&b| !used[b as usize]).ok_or("no filler byte")?;
             let cands: Vec<u8> = (0..=255u8).filter(|&b| used[b as usize]).collect();
+            // Second half: a candidate byte every 8 bytes, cycling through all
+            // pattern bytes by a counter (not by position), so that haystacks
+            // of every size contain every candidate byte with the same density.
             let mut hay = vec![filler; n];
             let mut i = n / 2;
+            let mut k = 0usize;
             while i < n {
-                hay[i] = cands[(i / 7) % cands.len()];
-                i += 7 + (i % 5);
+                hay[i] = cands[k % cands.len()];
+                k += 1;
+                i += 8;
             }
             return Ok((cfg, pats, s, hay));
         }
